@@ -4,7 +4,7 @@ import Drivers.Util
   Line-protocol driver for the X reference semantics (`X.run`); mirrors harness/h_xcmp.cpp.
 
   input : `<fuel>|<stdin hex or ->|<files: - or k=hex;k=hex>|<program as s-expression>`
-  output: `ok exit=<hex> out=<hex|-> in=<consumed> files=<-|k=hex;..> calls=<a,b,..>`
+  output: `ok exit=<hex> out=<hex|-> in=<consumed> files=<-|k=hex;..> end=<return|exit> calls=<a,b,..>`
         | `undefined <reason>` | `bad-input <why>`
 
   S-expression syntax of programs (what runner/gen_x.py serialises):
@@ -136,7 +136,7 @@ def fmtBehaviour (b : Behaviour) : String :=
       | _ => none
     if bs.isEmpty then none else some (toString k.val ++ "=" ++ tohex bs)
   let fs := if files.isEmpty then "-" else ";".intercalate files
-  s!"ok exit={natToHex b.exit.toNat} out={tohex out} in={b.stdinConsumed} files={fs} calls={",".intercalate b.calls}"
+  s!"ok exit={natToHex b.exit.toNat} out={tohex out} in={b.stdinConsumed} files={fs} end={if b.returned then "return" else "exit"} calls={",".intercalate b.calls}"
 
 def handle (line : String) : String :=
   match line.splitOn "|" with
